@@ -211,6 +211,7 @@ func TestReplay(t *testing.T) {
 			}
 		}
 		id := fmt.Sprintf("b%d", idx)
+		out.Begin(id, "voteset:crash")
 		what, trace := run(id, b, salt, vt)
 		if what != "" {
 			// the verdict is taken by Trace_VoteSet.tla on the recorded observations
